@@ -161,6 +161,21 @@ pub fn neighbor_solicit(src: &Addr, dst: &Addr, target: &[u8; 16], sll: Option<&
     icmp(src, dst, 135, 0, [0; 4], &body)
 }
 
+/// NDISC router advertisement (RFC 4861 4.2) with one prefix information option (4.6.2):
+/// on-link + autonomous flags, lifetimes in seconds
+pub fn router_advert(src: &Addr, dst: &Addr, router_lifetime_s: u16, prefix: &[u8; 16], prefix_len: u8, valid_s: u32, preferred_s: u32) -> Vec<u8> {
+    let rl = router_lifetime_s.to_be_bytes();
+    // cur hop limit 64, flags 0, router lifetime
+    let rest = [64, 0, rl[0], rl[1]];
+    let mut body = vec![0u8; 8]; // reachable time, retrans timer: unspecified
+    body.extend_from_slice(&[3, 4, prefix_len, 0xc0]);
+    body.extend_from_slice(&valid_s.to_be_bytes());
+    body.extend_from_slice(&preferred_s.to_be_bytes());
+    body.extend_from_slice(&[0; 4]);
+    body.extend_from_slice(prefix);
+    icmp(src, dst, 134, 0, rest, &body)
+}
+
 /// DNS response with rcode NXDomain for one A/IN question `a.b`
 pub fn dns_nxdomain(txid: u16) -> Vec<u8> {
     let mut v = vec![];
